@@ -75,7 +75,8 @@ SOURCES = {
     "C12": FF,
     "C13": FF + CORE,
     "C14": FF,
-    "C15": WIRE + ["src/common/median.go:*", HG + "GetFrame"],
+    "C15": WIRE + ["src/common/median.go:*", HG + "GetFrame", HG + "createRoot", "src/hashgraph/caches.go:PeerSetCache.*",
+            "src/hashgraph/inmem_store.go:InmemStore.Reset", "src/hashgraph/inmem_store.go:InmemStore.FirstRound"],
     "C16": STORE,
     "C17": RPC + ["src/node/node.go:Node.checkSuspend", "src/node/node.go:Node.Suspend"],
     "C18": [HG + "GetFrame", "src/common/median.go:*", "src/hashgraph/block.go:NewBlockFromFrame"],
